@@ -34,6 +34,8 @@ func main() {
 		cmdCheck(os.Args[2:])
 	case "sweep":
 		cmdSweep(os.Args[2:])
+	case "loops":
+		cmdLoops(os.Args[2:])
 	case "manifest":
 		cmdManifest()
 	case "baseline":
@@ -124,6 +126,39 @@ func cmdSweep(args []string) {
 		fmt.Println("==", sr.Name, "--", sr.Explanation)
 		for _, s := range sr.Sites {
 			fmt.Println("  ", s)
+		}
+	}
+}
+
+func cmdLoops(args []string) {
+	p, err := loadProg(nil)
+	if err != nil {
+		fmt.Fprintln(os.Stderr, err)
+		os.Exit(3)
+	}
+	for _, k := range args {
+		for fk, fn := range p.Funcs {
+			if fk == k || strings.HasSuffix(fk, "."+k) {
+				e := newEngine(p, fn)
+				fr := e.newFrame(fn, 0)
+				fmt.Println("==", fk)
+				for _, li := range fr.loopList {
+					var bs []int
+					for b := range li.blocks {
+						bs = append(bs, b)
+					}
+					sort.Ints(bs)
+					fmt.Printf("  loop %d header=%d blocks=%v finger=%q\n", li.ordinal, li.header.Index, bs, li.finger)
+					var names []string
+					if idom := li.header.Idom(); idom != nil {
+						for n := range fr.envAt[idom.Index] {
+							names = append(names, n)
+						}
+					}
+					sort.Strings(names)
+					fmt.Printf("     names at header: %v\n", names)
+				}
+			}
 		}
 	}
 }
